@@ -64,6 +64,8 @@ package grpc
 //@ ghost spec var lastDecErr Iface
 //@ ghost spec var lastDecReq Iface
 //@ ghost spec var epCount Int
+//@ ghost spec var encHdr Int
+//@ ghost spec var encTrlr Int
 //@ func (*unaryHandler).Handle
 //@   params h ctx reqpb
 //@   property C10
@@ -78,6 +80,14 @@ package grpc
 //@       ensures epCount == old(epCount) + 1
 //@       modifies epCount
 //@   callspec encoder params c v hd tr
-//@       modifies mapOf(load(hd)), mapOf(load(tr)), cell(hd), cell(tr)
+//@       ensures encHdr == hd && encTrlr == tr
+//@       modifies mapOf(load(hd)), mapOf(load(tr)), cell(hd), cell(tr), encHdr, encTrlr
 //@   ensures* rejected.requests.stop.here: old(h.decoder) != 0 && lastDecErr != nil ==> result1 != nil && epCount == 0
 //@   ensures* endpoint.once: result1 == nil ==> epCount == 1 && (old(h.decoder) != 0 ==> decCount == 1)
+//   -- "messages round-trip payloads": the result attributes the encoder moved into response headers and trailers are
+//   -- handed to the transport, each when non-empty, independently of the other
+//@   requires hdrSent == 0 && trlrSet == 0 && encHdr == 0 && encTrlr == 0
+//@   let outHdr = load(ptr(*metadata.MD, encHdr))
+//@   let outTrlr = load(ptr(*metadata.MD, encTrlr))
+//@   ensures* response.headers.sent: result1 == nil && encHdr != 0 && len(outHdr) > 0 ==> hdrSent == outHdr
+//@   ensures* response.trailers.set: result1 == nil && encTrlr != 0 && len(outTrlr) > 0 ==> trlrSet == outTrlr
